@@ -95,17 +95,24 @@ Theorem C18_connection_choice_bmp :
   forall c a b d k, bmp_get_connection c a b d = Some k -> bmp_connection_ok c a b d k.
 Proof. exact bmp_connection_choice. Qed.
 
-(* ---- wire_carries_resolved, for EVERY method of the generated signature list.  Whatever a call of the
-   method sends (ws, with final error e), command by command: the destination (x, y, p), the command number
-   and sub-command, the words carrying the application id / board mask are the values [spec_value] gives
-   (or the stated constants), and the connection is the one connection_choice prescribes; on success all
-   prescribed commands were sent; the model's recursion bound is never hit.  Calls between decorated
-   methods are resolved again, as in the code. *)
+(* ---- wire_carries_resolved, for EVERY method of the generated signature list and for EVERY command of
+   the call (not only the first).  Whatever a call of the method sends (ws, in order, with final error e)
+   is what the method's prescription (declared_wires) describes, command by command: the destination
+   (x, y, p), the command number and sub-command, the words carrying the application id / board mask are
+   the values [spec_value] gives (or the stated constants), and the connection is the one
+   connection_choice prescribes; an error only cuts the sequence short, on success the whole prescription
+   was carried out; the model's recursion bound is never hit.  Calls between decorated methods --
+   including count_cores_in_state re-entering itself once per state of a sequence, load_application ->
+   flood_fill_aplx / count_cores_in_state / send_signal, sdram_alloc -> fill -> write -- are resolved
+   again, as in the code, and what they send is covered.
+   Scope: the commands are those of the path taken against the fake machine of the harness (every command
+   succeeds, reads return zeros, see Model/Context.v mc_bodies); other paths (allocation failure, retries
+   of load_application, IOBUF chains, non-empty P2P tables) are exercised only by the independent oracle. *)
 Theorem C18_wire_carries_resolved :
   forall cls m sg, find_sig cls m = Some sg ->
-    exists sws, declared_wires cls m = Some sws /\
+    exists p, declared_wires cls m = Some p /\
       forall c s pos kw ws e,
-        call FUEL c cls m s pos kw = (ws, e) -> wires_den (MkCC c cls sg s pos kw) sws ws e.
+        call FUEL c cls m s pos kw = (ws, e) -> pres_ok (MkCC c cls sg s pos kw) p ws e.
 Proof. exact wire_carries_resolved. Qed.
 
 (* a method added to (or renamed in) the controllers appears in the generated list and must have a body in
@@ -116,7 +123,7 @@ Theorem C18_every_signature_covered :
 Proof. exact every_signature_covered. Qed.
 
 Theorem C18_every_signature_checked :
-  forallb (fun sg => chk_top 5 (sg_cls sg) (sg_name sg)) all_signatures = true.
+  forallb (fun sg => chk_top 7 (sg_cls sg) (sg_name sg)) all_signatures = true.
 Proof. exact all_methods_checked. Qed.
 
 (* ---- the hypotheses are satisfiable / the statements are not vacuous *)
@@ -157,3 +164,10 @@ Example C18_bmp_instance :
   /\ call FUEL ex_ctl "BMP" "read_adc" [[("cabinet", VInt 0); ("frame", VInt 0); ("board", VInt 0)]] [VInt 1] []
   = ([], Some AssertErr).
 Proof. exact ex_bmp_instance. Qed.
+
+(* every command of a self re-entering call carries the explicit application id, not the context's *)
+Example C18_iterable_instance :
+  call FUEL ex_ctl "MC" "count_cores_in_state" [[("app_id", VInt 66)]] [VTok 2; VInt 9] []
+  = (let w := MkWire 3 0 (VInt 255) (VInt 255) (VInt 0) (VInt SCP_signal) [(1%nat, 20, 15, 4 + AppDiag_count)]
+                     [(FByte, 1%nat, 0, VInt 9)] in [w; w; w], None).
+Proof. exact ex_iterable_instance. Qed.
